@@ -34,7 +34,7 @@ class BatchSize:
         sc().Container._BATCH_SIZE = self.old
 
 
-def make_set(n, S, W, seed, salt=0, first=0, tdt='uint8', kind='exact'):
+def make_set(n, S, W, seed, salt=0, first=0, tdt='uint8', kind='exact', wide=False):
     """-> dict(samples (n,S), v (n,W) uint8 in 0..3, idx (n,)) ; sample 0 and idx carry the global row index (first + i)."""
     rng = rng_for(seed, 'aset', n, S, W, salt, kind)
     if kind == 'float':
@@ -48,6 +48,9 @@ def make_set(n, S, W, seed, salt=0, first=0, tdt='uint8', kind='exact'):
     if n:
         v[0, :] = 3                                    # the first row carries the largest class value (automatic class sets freeze on the first batch)
     idx = (np.arange(n) + first).astype('uint32')
+    if wide:
+        # 16-bit intermediate values that GROW with the global row index: below 256 in the first rows, above later on
+        v = (v.astype('uint16') + 70 * (np.arange(n)[:, None] + first)).astype('uint16')
     return {'samples': X, 'v': v, 'idx': idx}
 
 
